@@ -58,6 +58,22 @@ def run(case):
         if k == 'from_string':
             a = util.NetAddress.from_string(fp(case['s']))
             return {'res': jv.to_plain(str(a))}
+        if k == 'parse':
+            # address / service strings parsed with a function supplying defaults for the missing parts
+            P = util.ServicePart
+            table = {'full': {P.HOST: 'localhost', P.PORT: 80, P.PROTOCOL: 'tcp'},
+                     'noproto': {P.HOST: 'localhost', P.PORT: 80, P.PROTOCOL: None},
+                     'nothing': {P.HOST: None, P.PORT: None, P.PROTOCOL: None},
+                     'portonly': {P.HOST: None, P.PORT: 8080, P.PROTOCOL: None},
+                     'badvals': {P.HOST: '', P.PORT: 0, P.PROTOCOL: '1x'},
+                     'strport': {P.HOST: 'h.example', P.PORT: '443', P.PROTOCOL: 'SSL'}}.get(case['df'])
+            if case['what'] == 'netaddr':
+                df = None if table is None else (lambda part: table[part])
+                a = util.NetAddress.from_string(fp(case['s']), default_func=df)
+            else:
+                df = None if table is None else (lambda protocol, part: table[part])
+                a = util.Service.from_string(fp(case['s']), default_func=df)
+            return {'res': jv.to_plain(str(a))}
     except ValueError as e:
         return {'exc': 'ValueError'}
     except TypeError as e:
@@ -106,7 +122,7 @@ class C18(Prop):
             'non-ASCII letters and digits (U+212A, U+0130, U+0131, U+017F, Arabic-Indic and superscript digits), the ASCII '
             "neighbours of '+', '-', '.', label lengths 62-64, name lengths 250-256; ints and digit strings (any script) as "
             'ports incl. 0, 65535, 65536, signs, spaces; bracketed and scoped IPv6 texts through _split_address; NetAddress / '
-            'Service print-parse round trips for host names, IPv4, IPv6 incl. scope ids with special characters; plus the '
+            'Service print-parse round trips for host names, IPv4, IPv6 incl. scope ids with special characters; address and service strings near the grammar parsed with seven kinds of default-supplying functions (exception class only); plus the '
             'exhaustive sweep of all 0x110000 one-character strings through the three validators against the English '
             'definitions; non-trivial = input of >= 2 characters; distinct = distinct case')
     trusted = ('the re engine is trusted to expand character classes (translator) and as the implementation under test',
@@ -135,7 +151,14 @@ class C18(Prop):
                                 '8_0', '٨٠', '۸۰', '8٠', '²', '1²', '1e3', '0x50', '9' * 4301, '1' + '0' * 30,
                                 str(rng.randrange(0, 70000)), rng.randrange(-5, 70000)])
                 yield {'kind': 'port', 'p': tp(p)}
-            elif r < 0.85:
+            elif r < 0.8:
+                s = rng.choice(['', 'host', 'host:80', 'host:', ':80', ':', '[::1]:80', '[::1]', '::1', 'tcp://host:80', 'tcp://host', 'tcp://:80',
+                                'tcp://', '://host:80', 'tcp:/host', 'tcp', 'SSL', '80', 'localhost', 'foo.bar:80', '1.2.3.4', '1.2.3.4:5',
+                                'a://b://c', 'tcp://[::1]', 'tcp://[::1]:1', 'x' * 300, 'tcp://' + gen_hostish(rng), gen_hostish(rng),
+                                gen_hostish(rng) + ':' + str(rng.randrange(70000))])
+                yield {'kind': 'parse', 'what': rng.choice(['netaddr', 'service', 'service']), 's': tp(s),
+                       'df': rng.choice(['none', 'full', 'noproto', 'nothing', 'portonly', 'badvals', 'strport'])}
+            elif r < 0.87:
                 s = rng.choice(['[::1]:80', '[::1]', '[::1', '::1:80', 'a:b:c', ':', '', 'host', 'host:', ':80', '[a]b]:1', '[a]:b]:1',
                                 '[fe80::1%]]:80', '[]:1', '[]', '[:]:', '1.2.3.4:5', '[x]y', '[x]:', gen_hostish(rng) + ':' + str(rng.randrange(70000))])
                 yield {'kind': 'split', 's': tp(s)}
